@@ -163,6 +163,29 @@ class C18(PropCheck):
                        else f"stackscope.Stack of {s.root!r} (most recent call last):\n")
         if outs[(False, True, False)][:1] != [want_header]:
             self._probs.append(f"header line {outs[(False, True, False)][:1]!r} for root {s.root!r}; expected {want_header!r}")
+        # the type shown for a context's manager is its real type, whatever its __class__ attribute claims
+        import stackscope as _ss
+
+        def ctx_types(st, acc):
+            for f in st.frames:
+                for c in f.contexts:
+                    ctx_of(c, acc)
+            return acc
+
+        def ctx_of(c, acc):
+            if c.obj is not None:
+                acc.append(type(c.obj).__name__)
+            if c.inner_stack is not None:
+                ctx_types(c.inner_stack, acc)
+            for ch in c.children:
+                ctx_of(ch, acc) if isinstance(ch, _ss.Context) else ctx_types(ch, acc)
+
+        tn = ctx_types(s, [])
+        full_text = "".join(outs[(False, True, True)])
+        for name in ("RProxy",):
+            if full_text.count(": " + name) != tn.count(name):
+                self._probs.append(f"{tn.count(name)} contexts hold a manager of type {name}; the formatted tree names that type "
+                                   f"{full_text.count(': ' + name)} times")
         if str(s) != "".join(s.format()):
             self._probs.append("str(x) is not the concatenation of format()")
         for ctx, hid in itertools.product([False, True], repeat=2):
